@@ -768,9 +768,10 @@ instance (w : World) (n : NId) (c : CId) : Decidable (RegOn w n c) := by unfold 
 def modelValues (w : World) (ms : ModelS) : List VId :=
   ms.inputs ++ (ms.nodes.map (fun n => (w.node n).inputs.filterMap id ++ (w.node n).outputs)).flatten
 
-/-- distinct values mentioned by the graph have distinct names -/
+/-- distinct named values mentioned by the graph have distinct names -/
 def NamesUnique (w : World) (ms : ModelS) : Prop :=
-  ∀ a ∈ modelValues w ms, ∀ b ∈ modelValues w ms, (w.value a).name = (w.value b).name → a = b
+  ∀ a ∈ modelValues w ms, ∀ b ∈ modelValues w ms,
+    (w.value a).name = (w.value b).name → (w.value a).name ≠ "" → a = b
 
 instance (w : World) (ms : ModelS) : Decidable (NamesUnique w ms) := by
   unfold NamesUnique; infer_instance
